@@ -550,7 +550,7 @@ def features(c, o):
 
 def run(ctx):
     ctx.rule = ("cases: histories of 4-40 operations (submit a completion request / run one processBatch) over 1-3 slots, context 1-10, batch 1-8, "
-                "keep -1..ctx+3, both slot policies, caches with/without shift function and with/without partial erase, cache/mask paddings; prompts share "
+                "keep -1..ctx+3, both slot policies, caches with/without shift function, partial erase, resume, sliding window 2..8, cache/mask paddings; prompts share "
                 "prefixes, repeat exactly, continue an earlier conversation, diverge, exceed the context; generations overflow the context; stop sequences; "
                 "non-trivial = at least one Forward happened and a slot was reused, forked or shifted; distinct = by canonical JSON of the case")
     ctx.trusted = ["Coq 8.16.1 kernel + vm_compute", "hand-written model coq/Slots/Model.v tied to the code by this differential run only",
@@ -558,7 +558,7 @@ def run(ctx):
                    "VerifSubmit copies the 12-line slot-assignment block of (*Server).completion",
                    "python generator and monitor (props/c07.py)"]
     ctx.assumptions = ["theorems: context size per slot >= 1 (NewInputCache refuses less); every other parameter, the network F and the history are universally quantified",
-                       "text-only inputs (no multimodal SameBatch groups)", "kvcache.Causal without sliding window behind the kvcache.Cache interface",
+                       "text-only inputs (no multimodal SameBatch groups)", "theorems over histories: no sliding window (window cfg = None); sliding-window caches are modelled, compared and monitored but not proved",
                        "requests are not cancelled mid-generation", "the network is any function of the history the cache exposes (harness: a hash; theorems: a Section variable)"]
     ctx.proof_stage(["Slots"], "Slots/Properties_C07.v", extra_targets=["Slots/Corr.v"])
     if not ctx.quick():
@@ -671,7 +671,7 @@ MANIFEST = {
                 "operation's result and the full projected state inside Coq (vm_compute); the property is also monitored directly on the implementation.",
         "design_ref": "DESIGN.md section 5, C07",
     },
-    "level_note": "Trusted: Coq kernel/vm_compute; the model-to-code tie is differential testing (generator-bounded); text-only inputs, no sliding window, "
+    "level_note": "Trusted: Coq kernel/vm_compute; the model-to-code tie is differential testing (generator-bounded); text-only inputs, theorems without sliding window (window caches tied and monitored only), "
                   "no mid-generation cancellation; llamarunner's copy is tied on its pure parts only.",
     "technique": "Coq proof (invariants by induction over the operation history, simulation by a single-sequence reference) + model/implementation differential check",
 }
